@@ -1,0 +1,17 @@
+//go:build verif
+
+package kit
+
+import (
+	"github.com/jsightapi/jsight-api-go-library/catalog"
+	"github.com/jsightapi/jsight-api-go-library/core"
+)
+
+// VerifCore exposes the underlying core to verification monitors (read-only use).
+func (j JApi) VerifCore() *core.JApiCore {
+	return j.core
+}
+
+func verifRecovered(site string, r interface{}) {
+	catalog.VerifRecovered(site, r)
+}
